@@ -33,15 +33,19 @@ Definition lenN {A} (l : list A) : N := N.of_nat (length l).
 
 (** ** splitting off a fixed number of bytes *)
 
-Definition take (n : nat) (bs : bytes) : option (bytes * bytes) :=
-  if Nat.ltb (length bs) n then None else Some (firstn n bs, skipn n bs).
+Fixpoint take (n : nat) (bs : bytes) : option (bytes * bytes) :=
+  match n with
+  | O => Some ([], bs)
+  | S k => match bs with
+           | [] => None
+           | b :: r => match take k r with Some (h, t) => Some (b :: h, t) | None => None end
+           end
+  end.
 
 Lemma take_app (a rest : bytes) n : length a = n -> take n (a ++ rest) = Some (a, rest).
 Proof.
-  intros <-. unfold take. rewrite app_length.
-  destruct (Nat.ltb_spec (length a + length rest) (length a)) as [H|_]; [lia|].
-  rewrite firstn_app, Nat.sub_diag, firstn_all, firstn_O, app_nil_r.
-  rewrite skipn_app, Nat.sub_diag, skipn_all. reflexivity.
+  intros <-. induction a as [|b a IH]; [reflexivity|].
+  cbn [length app take]. rewrite IH. reflexivity.
 Qed.
 
 (** ** integers *)
@@ -272,6 +276,7 @@ Fixpoint hx (s : string) : bytes :=
   end.
 Arguments hx _%string_scope.
 Definition rep (n : N) (b : N) : bytes := repeat b (N.to_nat n).
+Definition repl {A} (n : N) (x : A) : list A := repeat x (N.to_nat n).
 
 Fixpoint bytes_eqb (a b : bytes) : bool :=
   match a, b with
